@@ -1,5 +1,5 @@
 import PgsVerif.Proofs.WalkTree
-import PgsVerif.Generated.Code
+import PgsVerif.Generated.Code_acceptOrders
 /-!
 # Tie (translated code): the accept methods, statement by statement
 
